@@ -2,6 +2,13 @@ import Martian.Format
 import Martian.FormatExp
 import Martian.FormatCall
 import Driver.Util
+import Driver.C09Decl
+import Driver.C09Res
+import Driver.C09Call2
+import Driver.C09Stage
+import Driver.C09Pipe
+import Driver.C09File
+import Driver.C09Text
 
 /-! Line-protocol handler for property C09 (formatter core). -/
 namespace Driver.C09
@@ -113,17 +120,27 @@ def decCall (s : String) : Option Call :=
   | _ => none
 end
 
+/-- one word per token of `lexAll` (op `lextoks`): `p<hex byte>` punctuation, `s`/`i`/`f`/`d`/`r`
+followed by the hex of the token text for LITSTRING / NUM_INT / NUM_FLOAT / an `id` token / any
+other keyword, `T F N S D` for true false null self default -/
+def tokWord : Martian.FormatExp.Tok → String
+  | .punct c => "p" ++ hexOfBytes [c]
+  | .str raw => "s" ++ hexOfBytes raw
+  | .int raw => "i" ++ hexOfBytes raw
+  | .float raw => "f" ++ hexOfBytes raw
+  | .id raw => "d" ++ hexOfBytes raw
+  | .kTrue => "T"
+  | .kFalse => "F"
+  | .kNull => "N"
+  | .kSelf => "S"
+  | .kDefault => "D"
+  | .reserved raw => "r" ++ hexOfBytes raw
+
 def handle (op : String) (args : List String) : Option String :=
   match op, args with
   | "quote", [s] => do
     let b ← bytesOfHex s
     pure (hexOfBytes (quoteString b))
-  | "roundtrip", [s] => do
-    -- unquoteBytes (quoteString s)
-    let b ← bytesOfHex s
-    match Martian.Lexer.unquoteBytes (quoteString b) with
-    | some v => pure ("some " ++ hexOfBytes v)
-    | none => pure "panic"
   | "toposort", [n, edges] => do
     let n ← n.toNat?
     let es ← parseEdges edges
@@ -158,10 +175,12 @@ def handle (op : String) (args : List String) : Option String :=
     -- the hypothesis of the round-trip theorems; is it a val_exp (not a reference)?
     let e ← decode e
     pure ("wf=" ++ boolStr (Martian.FormatExp.wf e) ++ " val=" ++ boolStr (Martian.FormatExp.isVal e))
-  | "lexexp", [s] => do
+  | "lextoks", [s] => do
+    -- the token stream the parser is fed (mmLexInfo.Lex until the end of the input), one word per
+    -- token, or `none` when some token is INVALID
     let b ← bytesOfHex s
     match Martian.FormatExp.lexAll b with
-    | some ts => pure ("some " ++ toString ts.length)
+    | some ts => pure (" ".intercalate ("some" :: ts.map tokWord))
     | none => pure "none"
   | "fmtcall", [c] => do
     -- CallStm.format(printer, "")
@@ -179,6 +198,6 @@ def handle (op : String) (args : List String) : Option String :=
   | "normcall", [c] => do
     let c ← decCall c
     pure (encCall (Martian.FormatCall.normCall c))
-  | _, _ => none
+  | op, args => Driver.C09.handleDecl op args <|> Driver.C09.handleRes op args <|> Driver.C09.handleCall2 op args <|> Driver.C09.handleStage op args <|> Driver.C09.handlePipe op args <|> Driver.C09.handleFile op args <|> Driver.C09.handleText decode op args
 
 end Driver.C09
